@@ -461,6 +461,15 @@ def evolve_case(draw, tier="quick"):
     al = allowed_params(sysd, j, testparticle)
     p = draw(st.sampled_from(al + [x for x in al if x not in CART]))
     case = {"system": sysd, "integrator": integ, "order": order, "testparticle": testparticle, "j": j, "p": p}
+    # optional setup step: sim.move_to_com() AFTER the variation was initialised (the variational particles are
+    # shifted by the derivative of the centre of mass, which has a total-mass term when a mass is varied); the
+    # neighbouring real systems are moved to their own centre of mass in the same way.  The base systems have the
+    # star displaced and moving (COM off the origin) and total mass 0.6 / 1.0 / 1.7.
+    if order == 1 and not testparticle and draw(st.integers(0, 3)) == 0:
+        case["move_to_com"] = True
+        mass_pars = [x for x in al if kind_of(x) == "mass"]
+        if mass_pars and draw(st.booleans()):
+            case["p"] = p = draw(st.sampled_from(mass_pars))
     # N_active = N-1 with a massless last planet: the same physics as N_active=-1, but the variational force
     # takes its separate active/test-particle loop (first order only: the second-order loops ignore N_active)
     if n >= 3 and order == 1 and not testparticle and draw(st.integers(0, 3)) == 0:
@@ -687,6 +696,8 @@ def run_evolve(case, ctx):
 
     def shadow_real(shifts):
         s = make_sim(base, base.state(shifts, fams), case)
+        if case.get("move_to_com"):
+            s.move_to_com()
         configure(s, base, case, shadow=True)
         advance(s, base, case)
         return real_state(s, nreal, only=(j if tp else None))
@@ -698,6 +709,8 @@ def run_evolve(case, ctx):
     if order == 1:
         va = sim.add_variation(testparticle=tpi)
         set_variation(sim, va, j, p, base.prim)
+        if case.get("move_to_com"):
+            sim.move_to_com()       # shifts real and variational particles (derivative of the COM incl. total mass)
     else:
         j2, q = case["j2"], case["q"]
         va = sim.add_variation(testparticle=tpi)
@@ -824,6 +837,8 @@ def run_evolve(case, ctx):
         ctx.cls("two_particles")
     if case.get("n_active") is not None:
         ctx.cls("n_active/" + ("varied_testparticle" if j == case["n_active"] else "varied_active"))
+    if case.get("move_to_com"):
+        ctx.cls("move_to_com/" + kind_of(p))
     if tol > 1e-4 * R:
         ctx.cls("weak_tolerance(>1e-4)")
     if order == 2 or tp or kinds - {"cart"}:
